@@ -142,8 +142,13 @@ def sink(rep):
         rep.fn(b)
     S = Session(prog)
     v = S.eval(need["new"])
-    if v is not None and builder_hasher(S, v) == ("hash0",):
+    h0 = builder_hasher(S, v) if v is not None else None
+    its = hasher_items(S, h0) if h0 is not None else None
+    if h0 == ("hash0",):
         rep.ok("sink", "new", sample="hasher = Sha3_256::new()")
+    elif its is not None and all(it[0] == "item" for it in its):
+        # a constructor without inputs can only absorb constants: a fixed domain-separation prefix binds nothing less
+        rep.ok("sink", "new", sample="hasher = Sha3_256::new() followed by a constant prefix (%d item(s))" % len(its))
     else:
         rep.fail("sink", "new", "ChallengeBuilder::new does not start from the empty hash: %s" % (S.show(v) if v else None), site=need["new"].loc())
     S = Session(prog)
